@@ -136,3 +136,55 @@ Example xpkg_local_reported :
   exists r res, analyze_program 8 ctr1 one_pkg ex_xpkg = Some r /\ r_clocal r = true /\
     analyze_pkg all_exported 200 [] [] (all_triggers r) = Finished res /\ r_conflicts res <> [].
 Proof. vm_compute. do 2 eexists. repeat split; try reflexivity. discriminate. Qed.
+
+(* ---------- contracts (C20) ---------- *)
+From NM Require Import Contract.
+From NP Require Import ContractProofs.
+
+Lemma inferred_arity hf ctr : forall fds f0,
+  (forall i fd, nth_error fds i = Some fd -> ctr (f0 + i) = true -> infer_sem hf fd = true) ->
+  ctr_arity ctr f0 fds = true.
+Proof.
+  induction fds as [|fd fds IH]; intros f0 H; cbn; auto. apply andb_true_iff. split.
+  - destruct (ctr f0) eqn:E; auto. cbn. specialize (H 0 fd eq_refl). rewrite Nat.add_0_r in H. specialize (H E).
+    unfold infer_sem in H. apply andb_true_iff in H. tauto.
+  - apply IH. intros i fd' Hn Hc. apply (H (S i) fd' Hn). now replace (f0 + S i) with (S f0 + i) by lia.
+Qed.
+
+(* clean means panic-free when the contracts are those the (intraprocedural) inference accepts *)
+Theorem whole_sound_inferred prog afuel hf ctr pk r st :
+  analyze_program afuel ctr pk prog = Some r -> r_gsafe r = true -> r_clocal r = true ->
+  wf_program prog = true ->
+  (forall g fd, ctr g = true -> nth_error (p_funcs prog) g = Some fd -> infer_sem hf fd = true) ->
+  pkg_run [] [] (all_triggers r) st -> conflicts st = [] ->
+  forall fuel oracle, panic_of (run_program prog fuel oracle) = None.
+Proof.
+  intros Han Hg Hl Hwf Hinf Hr Hc. eapply whole_sound; eauto.
+  - apply (inferred_arity hf). intros i fd Hn Hci. eapply Hinf; eauto.
+  - intros g fd Hcg Hn. eapply infer_sem_sound. eauto.
+Qed.
+
+(* bodies the inference accepts / rejects *)
+Definition fd_id : func := {| f_nparams := 1; f_body := SReturn (AVar (VL 0)) |}.
+Definition fd_guarded_new : func :=
+  {| f_nparams := 1; f_body := SSeq (SIf (CNonNil (VL 0)) (SReturn ANew) SSkip) (SReturn ANil) |}.
+(* F23: the parameter is overwritten by a nil local inside a loop *)
+Definition fd_loop_overwrite : func :=
+  {| f_nparams := 1;
+     f_body := SSeq (SIf (CNot (CNonNil (VL 0))) (SReturn (AVar (VG 0))) SSkip)
+              (SSeq (SWhile COpaque (SAssign (VL 0) (AVar (VL 1)))) (SReturn (AVar (VL 0)))) |}.
+(* F3: a path that returns nil whatever the argument *)
+Definition fd_opaque_nil : func :=
+  {| f_nparams := 1;
+     f_body := SSeq (SIf COpaque (SReturn ANil) SSkip)
+              (SSeq (SIf (CNot (CNonNil (VL 0))) (SReturn ANil) SSkip) (SReturn (AVar (VL 0)))) |}.
+Example infer_examples :
+  infer_sem 16 fd_id = true /\ infer_sem 16 fd_guarded_new = true /\
+  infer_sem 16 fd_loop_overwrite = false /\ infer_sem 16 fd_opaque_nil = false.
+Proof. vm_compute. repeat split; reflexivity. Qed.
+
+(* the loop body really returns nil for a non-nil argument *)
+Example loop_overwrite_not_a_contract :
+  exists fuel oracle, exec {| p_funcs := [fd_loop_overwrite]; p_ginit := [true] |} fuel (f_body fd_loop_overwrite)
+                           (bind_params 0 [VPtr]) oracle = OReturn VNil [(VL 0, VNil); (VL 0, VPtr)] [].
+Proof. exists 10, [true]. reflexivity. Qed.
